@@ -50,6 +50,18 @@ class TransitionStorageTest_addActiveCandidatesToActivePool;
 class TransitionStorageTest_resetCandidatePool;
 class TransitionStorageTest_findTransitionForDateTime;
 
+#if ACE_TIME_VERIF_HOOKS
+// verification hook H2 (compiled only with -DACE_TIME_VERIF_HOOKS=1): one event
+// after each TransitionStorage pool operation, with the pool indices
+#define ACE_TIME_VERIF_HAS_H2 1
+extern void ace_time_verif_pool_event(uint8_t op, uint8_t indexPrior,
+    uint8_t indexCandidates, uint8_t indexFree);
+#define ACE_TIME_VERIF_POOL_EVENT(op) \
+    ace_time_verif_pool_event((op), mIndexPrior, mIndexCandidates, mIndexFree)
+#else
+#define ACE_TIME_VERIF_POOL_EVENT(op)
+#endif
+
 namespace ace_time {
 
 template<uint8_t SIZE, uint8_t TYPE, typename ZS, typename ZI, typename ZIB>
@@ -368,6 +380,7 @@ class TransitionStorage {
       mIndexPrior = 0;
       mIndexCandidates = 0;
       mIndexFree = 0;
+      ACE_TIME_VERIF_POOL_EVENT(0);
     }
 
     /** Return the current prior transition. */
@@ -391,6 +404,7 @@ class TransitionStorage {
     void resetCandidatePool() {
       mIndexCandidates = mIndexPrior;
       mIndexFree = mIndexPrior;
+      ACE_TIME_VERIF_POOL_EVENT(1);
     }
 
     Transition** getCandidatePoolBegin() {
@@ -414,6 +428,7 @@ class TransitionStorage {
       if (mIndexFree > mHighWater) {
         mHighWater = mIndexFree;
       }
+      ACE_TIME_VERIF_POOL_EVENT(2);
 
       if (mIndexFree < SIZE) {
         return mTransitions[mIndexFree];
@@ -434,6 +449,7 @@ class TransitionStorage {
       mIndexFree++;
       mIndexPrior = mIndexFree;
       mIndexCandidates = mIndexFree;
+      ACE_TIME_VERIF_POOL_EVENT(3);
     }
 
     /**
@@ -444,11 +460,13 @@ class TransitionStorage {
     Transition** reservePrior() {
       mIndexCandidates++;
       mIndexFree++;
+      ACE_TIME_VERIF_POOL_EVENT(4);
       return &mTransitions[mIndexPrior];
     }
 
     /** Swap the Free agrent transition with the current Prior transition. */
     void setFreeAgentAsPrior() {
+      ACE_TIME_VERIF_POOL_EVENT(5);
       swap(&mTransitions[mIndexPrior], &mTransitions[mIndexFree]);
     }
 
@@ -459,6 +477,7 @@ class TransitionStorage {
      */
     void addPriorToCandidatePool() {
       mIndexCandidates--;
+      ACE_TIME_VERIF_POOL_EVENT(6);
     }
 
     /**
@@ -477,6 +496,7 @@ class TransitionStorage {
         mTransitions[i - 1] = curr;
       }
       mIndexFree++;
+      ACE_TIME_VERIF_POOL_EVENT(7);
     }
 
     /**
@@ -500,6 +520,7 @@ class TransitionStorage {
       mIndexPrior = iActive;
       mIndexCandidates = iActive;
       mIndexFree = iActive;
+      ACE_TIME_VERIF_POOL_EVENT(8);
     }
 
     /**
